@@ -1141,12 +1141,13 @@ type c20Known struct {
 	Blocked string // substring of the blocked operation's label
 }
 
-func checkC20(tier string, seed int, t0 time.Time) int {
+// checkC20core: the synchronisation-skeleton model check. Returns violations, inconclusive notes, the coverage map and
+// the assumptions; cmdCheck merges them with the C20 harnesses of the registry and writes the evidence.
+func checkC20core(tier string, seed int, t0 time.Time) (int, []string, map[string]interface{}, []string) {
 	id := "C20"
 	prog, err := loadProgram([]string{"masswallet"})
 	if err != nil {
-		fmt.Println("INCONCLUSIVE", err)
-		return 3
+		return 0, []string{"syncbmc: " + err.Error()}, nil, nil
 	}
 	pkg := prog.Pkgs[modulePath+"/masswallet"]
 	rel := computeRelevant(pkg)
@@ -1170,10 +1171,7 @@ func checkC20(tier string, seed int, t0 time.Time) int {
 		}
 	}
 	if len(roots) < 3 || len(inconclusive) > 0 {
-		for _, i := range inconclusive {
-			fmt.Println("INCONCLUSIVE", i)
-		}
-		return 3
+		return 0, append(inconclusive, "syncbmc: skeleton roots missing"), nil, nil
 	}
 	caps, capNotes := chanCaps(pkg)
 	for _, c := range []string{"quit", "sigSuspend", "sigResume", "queueBlock", "queueMsgTx", "C"} {
@@ -1385,37 +1383,21 @@ func checkC20(tier string, seed int, t0 time.Time) int {
 	if len(samples) == 0 {
 		samples = append(samples, map[string]interface{}{"result": "no deadlock after Stop within the bound", "k": k})
 	}
-	ev := map[string]interface{}{
-		"property_id": id, "tier": tier, "seed": seed, "level": "model_checking",
-		"coverage": map[string]interface{}{
-			"states": states, "transitions": trans, "traces_validated_against_impl": len(notes), "samples": samples,
-			"bound_steps": k, "solver_queries": queries, "solver_seconds": round2(solverSec), "solver": "z3 4.8.12 (/usr/bin/z3), one query per obligation over the unrolled product",
-			"functions_in_skeleton": relNames, "skeleton": skeleton, "channel_capacities": caps, "notes": append(capNotes, notes...), "inconclusive": inconclusive,
-			"explanation": "states/transitions = nodes/edges of the extracted goroutine automata (follower, worker, Stop, environment); every interleaving of up to bound_steps scheduler steps is covered by the SMT query",
-		},
-		"assumptions": []string{
-			"data abstraction: branches not decided by a select index are nondeterministic (adds behaviours only)",
-			"calls without synchronisation operations terminate; mutexes (database writer lock, keystore locks) are not modelled",
-			"Start has run: wait-group counter 2, follower and worker at their entry",
-			"environment: at most 2 announced blocks and 2 queued tasks; one Stop",
-			"bounded: no deadlock within the stated number of scheduler steps; liveness under fairness is outside the claim",
-		},
-		"wall_s": round2(time.Since(t0).Seconds()), "violations": violations,
+	cov := map[string]interface{}{
+		"automata_states": states, "automata_transitions": trans, "traces_confirmed_natively": len(notes), "samples": samples,
+		"bound_steps": k, "solver_queries": queries, "solver_seconds": round2(solverSec), "solver": "z3 4.8.12 (/usr/bin/z3), one query per obligation over the unrolled product",
+		"functions_in_skeleton": relNames, "skeleton": skeleton, "channel_capacities": caps, "notes": append(capNotes, notes...),
+		"explanation": "automata_states/transitions = nodes/edges of the extracted goroutine automata (follower, worker, Stop, environment); every interleaving of up to bound_steps scheduler steps is covered by the SMT query",
 	}
-	js, _ := json.MarshalIndent(ev, "", " ")
-	os.MkdirAll(evidenceDir(), 0o755)
-	os.WriteFile(filepath.Join(evidenceDir(), id+".json"), js, 0o644)
-	for _, inc := range inconclusive {
-		fmt.Println("INCONCLUSIVE", inc)
+	assumptions := []string{
+		"sync_bmc: data abstraction: branches not decided by a select index are nondeterministic (adds behaviours only)",
+		"sync_bmc: calls without synchronisation operations terminate; mutexes (database writer lock, keystore locks) are not modelled",
+		"sync_bmc: Start has run: wait-group counter 2, follower and worker at their entry",
+		"sync_bmc: environment: at most 2 announced blocks and 2 queued tasks; one Stop",
+		"sync_bmc: bounded: no deadlock within the stated number of scheduler steps; liveness under fairness is outside the claim",
 	}
-	if violations > 0 {
-		return 1
-	}
-	if len(inconclusive) > 0 {
-		return 3
-	}
-	fmt.Printf("OK property=%s tier=%s k=%d automata-states=%d edges=%d wall=%.1fs\n", id, tier, k, states, trans, time.Since(t0).Seconds())
-	return 0
+	fmt.Fprintf(os.Stderr, "syncbmc: k=%d automata-states=%d edges=%d violations=%d wall=%.1fs\n", k, states, trans, violations, time.Since(t0).Seconds())
+	return violations, inconclusive, cov, assumptions
 }
 
 // replayC20 confirms a deadlock natively: with quit closed and the real follower returned, the real
